@@ -223,6 +223,16 @@ def t2_compare(sub, lines, timeout=900):
     return diffs, impl, model
 
 
+def nondeterministic(sub, lines, reps=8):
+    """evaluate each input line several times on the implementation; returns (line, answers) for the first line that does
+    not always get the same answer, or None."""
+    for l in lines:
+        out, _ = run_lines("t2", sub, [l] * reps)
+        if len(set(out)) > 1:
+            return l, sorted(set(out))
+    return None
+
+
 # ---------------------------------------------------------------- reporting
 
 def known_findings(pid):
